@@ -217,7 +217,14 @@ def run_case(idx, rng, tier, ctx):
             key = generic_key(mode, ev)
             wcase, wev = case, ev
             if hazard:
-                base = OutGen(random.Random(gseed), flags, None).generate()
+                bflags = dict(flags)
+                if hazard == 'file_layout_extract':
+                    # the hazard is the layout itself (kern as a free-standing subroutine: transform_file makes the
+                    # extracted procedures external), the snippet only guarantees one host-associated variable; the
+                    # ordinary internal procedures of the case trigger it just as well.  "The same program without
+                    # the hazard" is therefore the same routine inside a module (same random stream).
+                    bflags['layout'] = 'module'
+                base = OutGen(random.Random(gseed), bflags, None).generate()
                 bev = evaluate(base, mode, wd, res['counters'])
                 res['counters']['hazard_attribution_runs'] = 1
                 if bev['outcome'] == 'violation':
